@@ -1,8 +1,14 @@
 #!/usr/bin/env python3
-"""Build (cached by source hash) and run gosub2coq against $VERIF_REPO; registered in props/C15.py as
-PROP["gen"].  Writes coq/Gen/NetGen.v only when its content changed.  Exit status != 0 (and a line
+"""Build (cached by source hash) and run gosub2coq against $VERIF_REPO.
+usage: run.py [net|route]    (PROP["gen"] of props/C15.py: net -> coq/Gen/NetGen.v;
+                              props/C02.py, C03.py: route -> coq/Gen/SelectGen.v)
+The output is written only when its content changed.  Exit status != 0 (and a line
 "gosub2coq: cannot express <function>: <construct>") when a listed function leaves the supported subset."""
 import hashlib, os, subprocess, sys
+
+profile = sys.argv[1] if len(sys.argv) > 1 else "net"
+OUT = {"net": "NetGen.v", "route": "SelectGen.v"}[profile]
+DIRS = {"net": ["net", os.path.join("util", "math")], "route": ["route", "net"]}[profile]
 
 here = os.path.dirname(os.path.abspath(__file__))
 verif = os.path.dirname(os.path.dirname(here))
@@ -23,19 +29,23 @@ if not os.path.exists(exe):
         sys.exit(2)
     os.replace(exe + ".tmp", exe)
 # skip the (slow: go list -export of the dependencies) run when neither the inputs nor the output changed
-out = os.path.join(verif, "coq", "Gen", "NetGen.v")
-hi = hashlib.sha1(exe.encode())
-for d in ("net", os.path.join("util", "math")):
+out = os.path.join(verif, "coq", "Gen", OUT)
+hi = hashlib.sha1((exe + profile).encode())
+for d in DIRS:
     for f in sorted(os.listdir(os.path.join(repo, d))):
         if f.endswith(".go") and not f.endswith("_test.go"):
             hi.update(f.encode() + b"\0" + open(os.path.join(repo, d, f), "rb").read())
-stamp = os.path.join(scr, "stamp-" + hashlib.sha1(repo.encode()).hexdigest()[:10])
+stamp = os.path.join(scr, "stamp-%s-%s" % (profile, hashlib.sha1(repo.encode()).hexdigest()[:10]))
+
+
 def outhash():
     return hashlib.sha1(open(out, "rb").read()).hexdigest() if os.path.exists(out) else "-"
+
+
 if os.path.exists(stamp) and open(stamp).read() == hi.hexdigest() + " " + outhash():
-    print("gosub2coq: sources and NetGen.v unchanged since the last translation")
+    print("gosub2coq[%s]: sources and %s unchanged since the last translation" % (profile, OUT))
     sys.exit(0)
-r = subprocess.run([exe, "-repo", repo, "-out", os.path.join(verif, "coq", "Gen", "NetGen.v")], cwd=verif, env=env,
+r = subprocess.run([exe, "-repo", repo, "-profile", profile, "-out", out], cwd=verif, env=env,
                    stdout=subprocess.PIPE, stderr=subprocess.STDOUT, text=True)
 sys.stdout.write(r.stdout)
 if r.returncode == 0:
